@@ -7,7 +7,7 @@ use rs1090::decode::{Message, TimedMessage, DF};
 use rs1090::prelude::*;
 use serde_json::{json, Value};
 use std::sync::atomic::{AtomicU64, Ordering};
-use vcore::cprenc::{destination, encode, haversine_m, nl, wrap180, EARTH_R_M, NM};
+use vcore::cprenc::{destination, encode, haversine_m, nl, transition_gap, wrap180, EARTH_R_M, NM};
 use vcore::enc;
 use vcore::ev::{catch, h64, run_prop, Check, Ctx, Failure};
 use vcore::geo_gen::{point, Pt};
@@ -496,6 +496,17 @@ pub fn check_reports(ctx: &Ctx, st: &Stats, reference: Option<(f64, f64)>, lowal
             }
             let d = haversine_m(r.lat, r.lon, la, lo);
             if !(d <= TOL_M) {
+                // the same guard band as C04 / C05: the code gives the NL transition latitudes to 8 decimals, the standard
+                // by a transcendental formula; an aircraft one of whose recovered latitudes lies within 1e-7 degrees of a
+                // transition (possible for a whole flight along such a parallel) has two defensible zone counts
+                let on_transition = reports.iter().filter(|q| q.icao == r.icao && !q.only_filler).any(|q| {
+                    let rl = encode(q.lat, q.lon, q.odd as u32, q.surface).rlat;
+                    rl.abs() != 87.0 && transition_gap(rl) < crate::c04::GUARD_DEG
+                });
+                if on_transition {
+                    ctx.exclude("wrong position of an aircraft one of whose recovered latitudes lies within 1e-7 deg of an NL transition (not the exact +-87)");
+                    continue;
+                }
                 let what = if r.surface { "surface" } else { "airborne" };
                 let band = if r.lat.abs() > 86.9 && r.lat.abs() < 87.1 { ":near-87" } else { "" };
                 return Err(fail(
@@ -740,7 +751,9 @@ fn plan(kind: impl Strategy<Value = u8>) -> impl Strategy<Value = Plan> {
         .prop_map(|((icao, df18, kind, pt, bearing), (speed_kt, segs, split), (ops, drop_level, site_bearing, site_nm, alias_k, alias_m, jitter_m))| {
             let pt: Pt = pt;
             // along-the-parallel flights in the +-87 strata
-            let rhumb = pt.stratum.starts_with("lat87");
+            // ... and, for half of the starts drawn next to one of the other 57 NL transition latitudes, along that
+            // parallel (the track stays within metres of the transition for the whole flight instead of crossing it once)
+            let rhumb = pt.stratum.starts_with("lat87") || (pt.stratum == "nl-transition" && ops.get(3).copied().unwrap_or(0) % 2 == 0);
             let bearing = if rhumb { if bearing < 180.0 { 90.0 } else { 270.0 } } else { bearing };
             Plan { icao, df18, kind, lat: pt.lat, lon: pt.lon, bearing, speed_kt, rhumb, segs, split, ops, drop_level, site_bearing, site_nm, alias_k, alias_m, jitter_m }
         })
@@ -1056,8 +1069,8 @@ fn classes(ctx: &Ctx, what: &str, h: &Hist) {
 }
 
 pub fn run(ctx: &Ctx) {
-    ctx.set_rule("histories: 1-4 aircraft, each a plan (start from the C04 strata incl. flights along the 87th parallel, bearing, speed in {0,140,450,700, uniform 0-700} kt, 1-6 segments of 1-29 reports every 0.4-0.6 s separated by gaps from {9.5, 9.99, 10.01, 10.5, 12, 20, 30, 60, 170, 179.9, 180.1, 190, 470, 600, 1000, 1700, 1790, 1860, 2000, 7200 s}, mostly alternating parity, loss levels 0/20/60/90 %, duplicate receptions +<=0.3 s, neighbours delivered in swapped order across any gap (truthful timestamps) or with exchanged timestamps when < 1.5 s apart, in a quarter of the plans a block of 1-3 consecutive reports delivered late (right after some later report of the aircraft, truthful timestamps: a lagging receiver), DF17 (any capability) or DF18 (any control field) carriers, every airborne (9-18, 20-22) and surface (5-8) type code, altitudes unavailable / 25 ft / Gillham coded, any movement / track / status bits, a quarter of the reports followed by a non-position message of the same aircraft (velocity, identification, status, operational status, target state, type code 0, DF11, DF4) and such messages also arriving during gaps, parity-selective loss (8-67 consecutive reports lose every report of one parity), addresses independent or from one family differing in a few bits / byte order); the airborne alias family 'gap just long enough to fly k latitude / m longitude zones (+-40 km) at <= 690 kt, then airborne again'; surface scenarios add landings, take-offs and the adversarial 'last airborne fix exactly k surface zones away, long gap, then surface' family, with a receiver reference within 36 NM of every surface site and |lat| <= 80; 'crowd' histories put 1-4 regular aircraft among 260-1500 others heard for a few reports each; 'hidden reference' scenarios are surface scenarios in which the decoder is given no receiver position at all; 'low altitude' scenarios put every aircraft on one common site, give airborne reports within 15 NM of it altitudes below 1000 ft and let the decoder move the receiver reference to such fixes (as decode1090 always does). Frames from the independent encoder through Message::try_from and decode_positions; and as a JSONL file through the real decode1090 binary (its own loop around decode_position) and, split into chunks, through the Python binding's decode_1090t_vec (positions within 25 m and equal to the library's). End to end: 1-4 slow aircraft (<= 100 kt, airborne within 100 NM / on the ground within 30 NM of their receiver) are served to the real jet1090 binary over one or two Beast TCP sources with receiver references far apart (airborne aircraft may be heard by both receivers, surface aircraft by their own; a third of the aircraft report no altitude); one fast aircraft is heard 18 s apart by two receivers whose Beast clocks differ (the reports must not be paired); every position it prints, and every position its /all table holds, must be within 25 m of a position that aircraft reported. Oracle: every attached position within 25 m of the encoded one; per-aircraft outputs bit-identical with and without the other aircraft (fixed reference). Non-trivial = history with >= 1 positioned report and (a gap > 9 s or >= 2 aircraft); distinct by hash of the report list.");
-    ctx.assume("speeds <= 700 kt along great circles (rhumb lines along the 87th parallel); receiver reference fixed (update_reference = None) except in the 'low altitude' scenarios, where every fix that can move it lies within 15 NM of the one site all surface traffic is on");
+    ctx.set_rule("histories: 1-4 aircraft, each a plan (start from the C04 strata incl. flights along the 87th parallel and along the parallels of the other NL transitions, bearing, speed in {0,140,450,700, uniform 0-700} kt, 1-6 segments of 1-29 reports every 0.4-0.6 s separated by gaps from {9.5, 9.99, 10.01, 10.5, 12, 20, 30, 60, 170, 179.9, 180.1, 190, 470, 600, 1000, 1700, 1790, 1860, 2000, 7200 s}, mostly alternating parity, loss levels 0/20/60/90 %, duplicate receptions +<=0.3 s, neighbours delivered in swapped order across any gap (truthful timestamps) or with exchanged timestamps when < 1.5 s apart, in a quarter of the plans a block of 1-3 consecutive reports delivered late (right after some later report of the aircraft, truthful timestamps: a lagging receiver), DF17 (any capability) or DF18 (any control field) carriers, every airborne (9-18, 20-22) and surface (5-8) type code, altitudes unavailable / 25 ft / Gillham coded, any movement / track / status bits, a quarter of the reports followed by a non-position message of the same aircraft (velocity, identification, status, operational status, target state, type code 0, DF11, DF4) and such messages also arriving during gaps, parity-selective loss (8-67 consecutive reports lose every report of one parity), addresses independent or from one family differing in a few bits / byte order); the airborne alias family 'gap just long enough to fly k latitude / m longitude zones (+-40 km) at <= 690 kt, then airborne again'; surface scenarios add landings, take-offs and the adversarial 'last airborne fix exactly k surface zones away, long gap, then surface' family, with a receiver reference within 36 NM of every surface site and |lat| <= 80; 'crowd' histories put 1-4 regular aircraft among 260-1500 others heard for a few reports each; 'hidden reference' scenarios are surface scenarios in which the decoder is given no receiver position at all; 'low altitude' scenarios put every aircraft on one common site, give airborne reports within 15 NM of it altitudes below 1000 ft and let the decoder move the receiver reference to such fixes (as decode1090 always does). Frames from the independent encoder through Message::try_from and decode_positions; and as a JSONL file through the real decode1090 binary (its own loop around decode_position) and, split into chunks, through the Python binding's decode_1090t_vec (positions within 25 m and equal to the library's). End to end: 1-4 slow aircraft (<= 100 kt, airborne within 100 NM / on the ground within 30 NM of their receiver) are served to the real jet1090 binary over one or two Beast TCP sources with receiver references far apart (airborne aircraft may be heard by both receivers, surface aircraft by their own; a third of the aircraft report no altitude); one fast aircraft is heard 18 s apart by two receivers whose Beast clocks differ (the reports must not be paired); every position it prints, and every position its /all table holds, must be within 25 m of a position that aircraft reported. Oracle: every attached position within 25 m of the encoded one; per-aircraft outputs bit-identical with and without the other aircraft (fixed reference). Non-trivial = history with >= 1 positioned report and (a gap > 9 s or >= 2 aircraft); distinct by hash of the report list.");
+    ctx.assume("speeds <= 700 kt along great circles (rhumb lines along the 87th parallel and along the other NL transition parallels); receiver reference fixed (update_reference = None) except in the 'low altitude' scenarios, where every fix that can move it lies within 15 NM of the one site all surface traffic is on");
     ctx.assume("surface aircraft are stationary during gaps, so the 40 NM premise of the property stays true");
     let st = Stats { reports: AtomicU64::new(0), positioned: AtomicU64::new(0), surface_positioned: AtomicU64::new(0), reference_moves: AtomicU64::new(0), fillers: AtomicU64::new(0) };
     let n_air = ctx.tier.pick(24_000u32, 400_000u32);
